@@ -20,7 +20,7 @@ try:
         open(p, "w").write(s.replace(old, new, 1))
     killed = False
     for c in checks:
-        e = dict(os.environ, VERIF_REPO=dst)
+        e = dict(os.environ, VERIF_REPO=dst, VERIF_EVIDENCE_DIR=tmp + "/evidence", VERIF_REPLAY_DIR=tmp + "/replays", VERIF_WORK_DIR=tmp + "/work")
         r = subprocess.run(["/verif/check", c, "--tier", os.environ.get("VERIF_TIER", "quick")], env=e, capture_output=True, text=True)
         lines = [l for l in r.stdout.splitlines() if l.strip()]
         v = [l for l in lines if l.startswith("VIOLATION")]
@@ -34,5 +34,3 @@ try:
     sys.exit(0 if killed else 1)
 finally:
     shutil.rmtree(tmp, ignore_errors=True)
-    shutil.rmtree("/verif/replays", ignore_errors=True)
-    shutil.rmtree("/verif/.work", ignore_errors=True)
